@@ -608,6 +608,24 @@ Definition call_load_base_structures (f : list (rt_base T) -> pstr -> bool -> ps
   | _, _, _, _ => XFail XUnmodelled
   end.
 
+(* x = P[k] / x = P.a where the variable P is rooted at is mutated elsewhere in the function: the value gets a second
+   name.  For an immutable value (None, bool, int, float, str) a copy is exactly what Python does; a mutable value
+   would be shared, which this runtime does not model *)
+Definition dy_scalar (v : pyval) : xres pyval :=
+  match v with
+  | VNone | VBool _ | VInt _ | VFloat _ | VStr _ => XDone v
+  | _ => XFail XUnmodelled
+  end.
+
+(* d.update(...) / d.setdefault(...) are translated as the stores they stand for, after this test that d is a
+   dict (a value without these methods raises AttributeError before anything else happens) *)
+Definition dy_require_dict (v : pyval) : xres pyval :=
+  match v with
+  | VDict _ => XDone VNone
+  | VNone | VBool _ | VInt _ | VFloat _ | VStr _ | VList _ => XFail XAttr
+  | _ => XFail XUnmodelled
+  end.
+
 (* ---------------------------------------------------------------- comprehensions *)
 
 (* [f(x) for x in l] where f can raise *)
